@@ -22,8 +22,8 @@ pub struct Case {
     pub multiple: bool,
 }
 
-pub const B1: u64 = 20_000;
-pub const B2: u64 = 100_000;
+pub const B1: u64 = 300_000;
+pub const B2: u64 = 3_000_000;
 
 fn features(p: &Program) -> String {
     let mut f = vec![];
@@ -51,7 +51,7 @@ impl Property for C09 {
         true
     }
     fn rule(&self) -> String {
-        format!("case = generated program with growth knobs (growing where-clauses, polymorphic recursion, recursive struct fields under auto traits, unbounded answer sets) and 4 goals of all forms; every goal is solved with SLG and the recursive solver (cache on) at default limits and at one generated reduced configuration, and (half of the cases) enumerated with solve_multiple stopping after 20 answers. Oracle: the call returns without a panic other than the documented 'overflow depth reached' of the recursive solver, within a deterministic work budget counted by the cfg(chalk_verif) hook (SLG: root-loop iterations + table creations; recursive: solve_goal entries): {} units, re-run once with {} units — completing only in the re-run counts as 'slow', exceeding both is a violation (honest solves of these sizes need < 1000 units, measured and reported as max:work). A worker process dying on a signal is a violation with the in-flight case. Non-trivial = (program, goal, configuration) whose program has a growing or cyclic rule or coinductive traits; distinct by hash.", B1, B2)
+        format!("case = generated program with growth knobs (growing where-clauses, polymorphic recursion, recursive struct fields under auto traits, unbounded answer sets) and 4 goals of all forms; every goal is solved with SLG and the recursive solver (cache on) at default limits and at one generated reduced configuration, and (half of the cases) enumerated with solve_multiple stopping after 20 answers. Oracle: the call returns without a panic other than the documented 'overflow depth reached' of the recursive solver, within a deterministic work budget counted by the cfg(chalk_verif) hook (SLG: root-loop iterations + table creations; recursive: solve_goal entries): {} units, re-run once with {} units — completing only in the re-run counts as 'slow', exceeding both is a violation (units also count goal- and type-node folds, so they track real cost; the largest honest solves of these sizes need < 1e5 units, measured and reported as max:work). A worker process dying on a signal is a violation with the in-flight case. Non-trivial = (program, goal, configuration) whose program has a growing or cyclic rule or coinductive traits; distinct by hash.", B1, B2)
     }
     fn assumptions(&self) -> Vec<String> {
         vec![
@@ -146,7 +146,13 @@ impl Property for C09 {
                                     }
                                     Run::Budget => {
                                         // classification: does the reference derivation of this goal go through a coinductive cycle?
-                                        let class = if program_has_co_cycle(&case.pg.program) { "coinductive-cycle".to_string() } else { feats.clone() };
+                                        let class = if program_has_co_cycle(&case.pg.program) {
+                                            "coinductive-cycle".to_string()
+                                        } else if case.pg.program.traits.iter().any(|t| t.extra > 0) && case.pg.program.traits.iter().any(|t| !t.supers.is_empty()) {
+                                            "env-with-trait-params".to_string()
+                                        } else {
+                                            feats.clone()
+                                        };
                                         out.fail(format!("{}:runaway:{}", base, class), ctx(format!("no result within {} work units (budget {} exceeded first): runaway search", B2, B1)));
                                         continue;
                                     }
